@@ -708,3 +708,6 @@ PROPS["C17"]["rule"] += " One observed failure on its own (33 cases): a hardware
 PROPS["C08"]["rule"] += " One case in six is not forwarding; with a configured lifetime of 0 or forwarding off the final RA is told by its position: apart from the initial RA of a connection that was being set up, exactly one multicast RA after the stop on termination and none on reload (judged when state reads take no time). A stop that arrives while the interface has no connection (torn down by a link change, not yet re-dialled) is not asked for a final RA."
 PROPS["C10"]["rule"] += " The waits between consecutive timed-out receives never shrink and the last is longer than the first."
 PROPS["C16"]["rule"] += " With a ticking clock the later options of a wildcard stanza still obey what every reading obeys (no negative lifetime, preferred <= valid, non-deprecated constant) and promise no more than the option before them."
+
+PROPS["C19"]["rule"] += " The concurrent (race-build) run also looks at what its subscribers were given: only changes inside their mask, only changes that were notified, never more than 8 buffered."
+PROPS["C13"]["rule"] += " OS part: what the addresser returns is compared with the kernel's listing as a multiset (nothing obliges it to keep the kernel's order)."
